@@ -54,7 +54,7 @@ func TestC15Runnable(t *testing.T) {
 		"proxy.grpcmaxtxmsgsize":      {"0", "-1", "1024"},
 		"proxy.localip":               {"", "10.0.0.9"},
 		"log.access.format":           {"common", "combined", "$remote_host $upstream_host:$upstream_port $time_common"},
-		"proxy.auth":                  {"", "name=b1;type=basic;file=" + htpasswd},
+		"proxy.auth":                  {"", "name=b1;type=basic;file=" + htpasswd, "name=b1;type=basic;file=" + htpasswd + ";refresh=-5s", "name=b1;type=basic;file=" + htpasswd + ";refresh=3s", "name=b1;type=basic;file=" + htpasswd + ";refresh=0s"},
 		"tracing.TracingEnabled":      {"false"},
 		"tracing.SpanName":            {"{{.Proto}} {{.Method}} {{.Host}} {{.Scheme}} {{.Path}}", "{{ .Method", "{{.NoSuchField}}", "plain text", "{{", ""},
 		"tracing.SpanHost":            {"localhost:9998", ""},
